@@ -142,6 +142,21 @@ def rule_pixel_pipeline(ck, m, rid):
         ck.ob(rid, enclosing_stmt(c), cds == {"self._is_animated"} and [norm(a_) for a_ in c.args] == ["self._seek_position"],
               f"the frame to render must be selected (`img.seek(self._seek_position)`) whenever the image is animated - found conditions {sorted(cds)}: a PIL image supplied by the caller keeps the "
               "position of the last render, so any shortcut renders a stale frame", stmt="_get_render_data: img.seek(self._seek_position) iff animated")
+    comp = [c for c in body_walk(grd) if isinstance(c, ast.Call) and isinstance(c.func, ast.Attribute) and c.func.attr == "alpha_composite" and isinstance(c.func.value, ast.Name)
+            and [norm(a_) for a_ in c.args] == ["img"] and norm(trace(grd, c.func.value, use=c)).startswith("Image.new('RGBA', img.size")]
+    # what the image is composited over: the user's colour, or the terminal background with OPAQUE black as the fallback. For an RGBA
+    # canvas a numeric fill such as 0 is transparent black: nothing would be blended and translucent pixels keep their raw colour.
+    for c in comp:
+        new_ = trace(grd, c.func.value, use=c)
+        col = new_.args[2] if isinstance(new_, ast.Call) and len(new_.args) >= 3 else None
+        consts = [x for x in ast.walk(col) if isinstance(x, ast.Constant) and not isinstance(getattr(x, "_p", None), ast.Subscript)] if col is not None else []
+        # (constants that are subscript indices / keyword flags of the colour query are not colours)
+        fills = [x for x in consts if not isinstance(x.value, bool) and not (isinstance(x.value, int) and any(isinstance(p_, ast.Subscript) and p_.slice is x for p_ in ast.walk(col)))
+                 and not (isinstance(x.value, str) and x.value == "#")]
+        badf = [x.value for x in fills if not (isinstance(x.value, str) and x.value.lower() in ("#000000", "#000", "black"))]
+        ck.ob(rid, enclosing_stmt(c), col is not None and not badf,
+              f"the background an image is composited over must be the given colour or the terminal background with opaque black (`'#000000'`) as the fallback; found fill value(s) {badf} in `{short(col, 70) if col is not None else None}`"
+              " - a numeric fill of an RGBA canvas is transparent, so nothing is blended", stmt="_get_render_data: composite background is a colour (opaque fallback)")
     # which sources skip alpha processing: exactly `alpha is None` or a mode without transparency (palette modes carry it in info, not in a band)
     top = next((s_ for s_ in grd.body if isinstance(s_, ast.If) and any(isinstance(c, ast.Call) and call_name(c) == "convert_resize_img" for x in s_.body for c in ast.walk(x))), None)
     ck.expect(top is not None, "_get_render_data: the opaque / alpha-processing decision not found")
